@@ -181,6 +181,8 @@ def gen_cases(ctx: Ctx) -> List[Dict[str, Any]]:
 def run(ctx: Ctx):
     gen.regenerate(ctx, ["Cadence"])
     leanproj.check_theorems(ctx, MODULE, THEOREMS)
+    from .registry import THEOREMS_C11B
+    leanproj.check_theorems(ctx, "PyseqmVerif.Properties.C10b", THEOREMS_C11B)
     drv = leanproj.Driver()
     try:
         # (a) _n_timepoints vs model cap, exhaustive small grid (integers: exact)
